@@ -691,7 +691,7 @@ pub fn gen_malformed(rng: &mut Rng) -> System {
     let nvars = rng.range(0, 10);
     let ncons = rng.range(0, 6);
     let scale = *rng.pick(&SCALES);
-    let mut reqs = Vec::new();
+    let mut reqs: Vec<ConstraintRequest> = Vec::new();
     for _ in 0..ncons {
         let shape = *rng.pick(&SHAPES);
         let (ni, np) = shape_arity(shape);
@@ -725,6 +725,18 @@ pub fn gen_malformed(rng: &mut Rng) -> System {
     } else if roll == 2 && !guesses.is_empty() {
         let g = guesses[0];
         guesses.push(g); // duplicate id
+    } else if roll == 3 && !guesses.is_empty() {
+        // sparse guess ids: a label far beyond the number of guesses, and a request that uses it
+        // (passes the guess validation, fails the column-range check of the sparsity pattern)
+        let last = guesses.len() - 1;
+        let big = (nvars + 5 + rng.below(20)) as u32;
+        guesses[last].0 = big;
+        reqs.push(ConstraintRequest::new(Constraint::Fixed(big, value(rng, scale)), 0));
+    } else if roll == 4 && nvars >= 6 {
+        // an id that is missing only from the *third* row of a three-row request
+        let n = nvars as u32;
+        let arc = DatumCircularArc { center: DatumPoint::new_xy(0, 1), start: DatumPoint::new_xy(2, 3), end: DatumPoint::new_xy(n + 1, n + 2) };
+        reqs.insert(0, ConstraintRequest::new(Constraint::PointArcCoincident(arc, DatumPoint::new_xy(4, 5)), 0));
     }
     let mut s = System::default_cfg(reqs, guesses, "malformed");
     s.max_iterations = *rng.pick(&[0, 1, 2, 5, 35, 35, 35, 200]);
